@@ -1,7 +1,7 @@
 (** C17 — The internal rate limiter never admits more than N events per window.
     Statements only; proofs are in RateLimit/Proofs.v. *)
 From Coq Require Import List ZArith Bool Lia.
-From CM Require Import Lib.Str Gen.Consts RateLimit.Model RateLimit.Proofs.
+From CM Require Import Lib.Str Gen.Consts RateLimit.Model RateLimit.Proofs RateLimit.Race.
 Import ListNotations.
 Open Scope Z_scope.
 
@@ -150,6 +150,60 @@ Theorem C17_default_limits_valid : 0 < rate_limit_events /\ 0 < rate_limit_event
 Proof. split; reflexivity. Qed.
 Print Assumptions C17_default_limits_valid.
 
+(** "also after the limit or the window has been changed at run time", liveness side: whatever
+    SetMaxEvents / SetWindow calls are made, in any phase of the loop and in any number, the
+    scheduling goroutine does not die (the configuration it reads is always one a setter
+    established), and unless it is stopped or in the middle of a hand-over it comes to offer a
+    ticket in at most two steps of its own.  This is a theorem about the code as it is now:
+    limit, window and oldest stamp are read in one critical section ([Compute]). *)
+Theorem C17_loop_never_dies : forall n w t0 ls s, (n = 0%nat -> w = 0) ->
+  run (init n w t0) ls = Some s -> ph s <> Dead /\ valid_cfg s.
+Proof. exact loop_never_dies. Qed.
+Print Assumptions C17_loop_never_dies.
+
+Theorem C17_live_loop_offers : forall n w t0 ls s, (n = 0%nat -> w = 0) ->
+  run (init n w t0) ls = Some s -> ph s <> Stopped -> (forall th, ph s <> Recording th) ->
+  exists ls' s', run s ls' = Some s' /\ ph s' = Offering /\ (length ls' <= 2)%nat /\
+                 ring s' = ring s /\ cursor s' = cursor s /\ window s' = window s /\
+                 handovers ls' = [] /\ stable ls' = true.
+Proof. exact live_loop_offers. Qed.
+Print Assumptions C17_live_loop_offers.
+
+(** (R4), (R5) the code before the fix d913d34 read len(r.ring) and r.window without the mutex
+    and indexed the ring afterwards ([pstep]): a SetMaxEvents(0) in between — a call the API
+    accepts — made the loop panic while holding the mutex (no admission ever again, every
+    later setter call blocks for ever); SetMaxEvents(2), SetWindow(100) between the two reads
+    made it see (0, 100) and panic on "invalid configuration". Reproduced on the real code
+    (class reconfigure-under-load). *)
+Theorem C17_unlocked_peek_kills_loop_orig_refuted :
+  exists ls p, prun (pinit 2 0 1000) ls = Some p /\ calls_accepted (pinit 2 0 1000) ls = true /\
+    ph (base p) = Dead /\ mutex_stuck p = true /\ valid_cfg (base p) /\
+    (forall t, pstep p (Other (Handover t)) = None) /\
+    (forall t n, pstep p (Other (SetMaxEvents t n)) = None) /\
+    (forall t w, pstep p (Other (SetWindow t w)) = None).
+Proof. exact unlocked_peek_kills_loop_orig_refuted. Qed.
+Print Assumptions C17_unlocked_peek_kills_loop_orig_refuted.
+
+Theorem C17_unlocked_peek_sees_invalid_config_orig_refuted :
+  exists ls p, prun (pinit 0 0 1000) ls = Some p /\ calls_accepted (pinit 0 0 1000) ls = true /\
+    ph (base p) = Dead /\ valid_cfg (base p) /\ length (ring (base p)) = 2%nat /\ window (base p) = 100.
+Proof. exact unlocked_peek_sees_invalid_config_orig_refuted. Qed.
+Print Assumptions C17_unlocked_peek_sees_invalid_config_orig_refuted.
+
+(** "Issuance through the ACME issuer on its first attempt is subject to this limit per CA and
+    account", in the form in which it is observed at the CA: when all calls begin at or after
+    the instant t0 at which the limiter of that CA + account is created, the j-th admission
+    (0-based) is not before t0 + (j / n) * w — and an order reaches the CA only after its
+    admission.  Tied end to end: bursts of real ACMEIssuer.Issue calls against a mock ACME CA
+    with small RateLimitEvents / RateLimitEventsWindow, order arrival instants taken at the CA
+    (class e2e-throttle). *)
+Theorem C17_burst_lower_bound : forall (n : nat) (w t0 : Z) ls s', (0 < n)%nat -> 0 <= w ->
+  stable ls = true -> run (init n w t0) ls = Some s' ->
+  forall j, (j < length (handovers ls))%nat ->
+    t0 + Z.of_nat (j / n) * w <= nth j (handovers ls) 0.
+Proof. exact burst_lower_bound. Qed.
+Print Assumptions C17_burst_lower_bound.
+
 (** non-vacuity *)
 Example C17_example_run :
   let ls := [Compute 1010; TimerFire 1010; Handover 1010; Rec 1011; Compute 1011; TimerFire 1012; Handover 1012;
@@ -174,3 +228,10 @@ Example C17_dynamic_example :
     (0 < length (ring s))%nat /\ inflight s = 1%nat /\ mem s = [1040] /\ window s = 300 /\
     handovers ls2 = [1102; 1403; 1704] /\ records ls2 = [1102; 1404].
 Proof. eexists. eexists. split; [vm_compute; reflexivity|]. split; [vm_compute; reflexivity|]. vm_compute. repeat split; lia. Qed.
+(** hypotheses of C17_loop_never_dies / C17_live_loop_offers: a history that goes from (2, 100)
+    to the unlimited limiter and back while the loop sleeps, offers and records *)
+Example C17_live_example :
+  let ls := [Compute 1000; TimerFire 1000; Handover 1001; SetWindow 1001 0; Rec 1002; SetMaxEvents 1003 0;
+             Compute 1004; Handover 1005; SetMaxEvents 1005 3; Rec 1006; SetWindow 1007 50; Compute 1008] in
+  exists s, run (init 2 100 1000) ls = Some s /\ ph s = Sleeping 50 /\ length (ring s) = 3%nat.
+Proof. eexists. split; [vm_compute; reflexivity|]. split; reflexivity. Qed.
